@@ -429,6 +429,28 @@ def serde_rules(F, rep, rule="C20.4"):
             n = len(g.calls_to("serialize_field")) + len(g.calls_to("serialize_newtype_struct"))
             if any(c[2] and c[2].get("path", "").endswith("serialize_newtype_struct") for c in g.calls()):
                 n = nf
+            # conditionally omitted fields (skip_serializing_if): the deserializer must not *require* them
+            def const_names(body, callee):
+                out = []
+                for c in C.CFG(body).calls():
+                    fr = c[2]
+                    if fr and fr.get("path", "").split("::")[-1] == callee:
+                        for a_ in body["blocks"][c[0]]["t"].get("args", []):
+                            cst = a_.get("const") if isinstance(a_, dict) else None
+                            if cst and "bytes" in cst:
+                                out.append(bytes(cst["bytes"]).decode("utf-8", "replace"))
+                return out
+            skipped = const_names(ser[0], "skip_field")
+            required = []
+            for b2 in F.fns.values():
+                if "Deserialize" in b2.get("impl_self", "") + b2["path"] and ("for %s<" % adt in b2["path"] or "for %s>" % adt in b2["path"] or b2["path"].find("for " + adt) >= 0):
+                    required += const_names(b2, "missing_field")
+            both = sorted(set(skipped) & set(required))
+            if both:
+                rep.violated(rule, adt + "/conditional-fields", "the serializer of %s may omit field(s) %s (skip_serializing_if) while the deserializer requires them "
+                             "(no default): a value for which the field is omitted cannot be read back" % (adt, both), witness={"kind": "serde-skip", "fields": both})
+            elif skipped:
+                rep.holds(rule, adt + "/conditional-fields", "fields %s may be omitted by the serializer and have a default on the reading side" % sorted(set(skipped)))
             if n == nf:
                 rep.holds(rule, adt + "/all-fields", "the derived serializer of %s writes all %d fields" % (adt, nf))
             else:
